@@ -1,5 +1,4 @@
 import UsualProofs.C02.Table
-import Mathlib.Tactic.SplitIfs
 /-!
 # C02 — the main loop: progress, fuel independence, reachable configurations
 -/
